@@ -77,6 +77,7 @@ const (
 	EngMem        = "memkv"
 	EngBadger     = "badger"
 	EngTiKV       = "tikv"
+	EngTiKVPool   = "tikv-pool"
 	EngMemMetrics = "metrics(memkv)"
 	EngBadgerMet  = "metrics(badger)"
 	EngTiKVMet    = "metrics(tikv)"
@@ -140,17 +141,28 @@ func OpenEngine(name string, splitKeys ...[]byte) (*EngineHandle, error) {
 	case EngBadger:
 		dir := ScratchDir()
 		return OpenBadgerAt(dir, true)
-	case EngTiKV:
+	case EngTiKV, EngTiKVPool:
 		rpcClient, cluster, pdClient, err := testutils.NewMockTiKV("", nil)
 		if err != nil {
 			return nil, err
 		}
 		testutils.BootstrapWithMultiRegions(cluster, splitKeys...)
-		st, err := tikv.NewTestTiKVStore(rpcClient, pdClient, func(c tikv.Client) tikv.Client { return &guardedTiKVClient{inner: c} }, nil, 0)
-		if err != nil {
-			return nil, err
+		guard := &guardedTiKVClient{inner: rpcClient}
+		// production builds a pool of TiKV clients over one cluster and the adapter takes them in turn: with
+		// tikv-pool consecutive storage calls go through different clients (each with its own cached state)
+		n := 1
+		if name == EngTiKVPool {
+			n = 3
 		}
-		kv := itikv.NewKvStoreWithStorage([]*tikv.KVStore{st})
+		var sts []*tikv.KVStore
+		for i := 0; i < n; i++ {
+			st, err := tikv.NewTestTiKVStore(rpcClient, pdClient, func(c tikv.Client) tikv.Client { return guard }, nil, 0)
+			if err != nil {
+				return nil, err
+			}
+			sts = append(sts, st)
+		}
+		kv := itikv.NewKvStoreWithStorage(sts)
 		return &EngineHandle{Name: name, KV: kv, close: func() { _ = kv.Close() }}, nil
 	case EngMemMetrics, EngBadgerMet, EngTiKVMet:
 		inner := map[string]string{EngMemMetrics: EngMem, EngBadgerMet: EngBadger, EngTiKVMet: EngTiKV}[name]
